@@ -590,7 +590,7 @@ def run(ctx):
         pass
     real_transport_phase(ctx)
     ctx.coverage_extra["io_points_enumerated"] = total_points
-    ctx.coverage_extra["exhaustive"] = "every transport call index of both sides; byte offsets inside a written packet are sampled (quick: 0,1,7,13)"
+    ctx.coverage_extra["enumeration"] = "every transport call index of both sides; byte offsets inside a written packet are sampled (quick: 0,1,7,13)"
     if model and mcases:
         outs = model.batch(mcases)
         for (case, nm, f), m in zip(meta, outs):
